@@ -275,6 +275,18 @@ func TestC01(t *testing.T) {
 			clientKey, _ = hello.NewKey(old.Priv.Bytes(), 99, publicName, suites)
 			cl = append(cl, "stale")
 		}
+		// maximum_name_length is the operator's choice (0 = no hint, a site-wide constant, ...):
+		// the configs are whatever bytes were published, not what this library would write
+		if mc := rapid.IntRange(0, 3).Draw(t, "max_name_length_class"); mc > 0 {
+			for _, k := range append(append([]*hello.Key{}, keys...), clientKey) {
+				mnl := []int{0, 0, 64, 255}[mc]
+				if mc == 1 {
+					mnl = rapid.IntRange(0, 255).Draw(t, "max_name_length")
+				}
+				k.Config = hello.ConfigBytes(k.ID, 0x0020, k.Priv.PublicKey().Bytes(), k.Suites, uint8(mnl), []byte(k.PublicName))
+			}
+			cl = append(cl, "operator_chosen_max_name_length")
+		}
 		clientList, _ := ech.ConfigList([]ech.Config{clientKey.Config})
 		// backend
 		serverPad := []int{0, 0, 3000, 17000, 39000}[rapid.IntRange(0, 4).Draw(t, "server_pad")]
